@@ -1,5 +1,7 @@
 import AaVerif.Aa.ParseFile
 import AaVerif.Aa.ParseCap
+import AaVerif.Aa.ParsePtrace
+import AaVerif.Aa.ParseSignal
 import AaVerif.Generated.AaTables
 /-!
 # C09 — rule text round-trips through the printer and the parser
@@ -157,6 +159,59 @@ error (the rule read back is the bare domain rule): the table membership above i
 theorem C09_network_unknown_type_dropped :
     (parseCommaRules false (renderRule (Ref.netRule false false (S "inet") (S "streem")) (padOf []) ++ S "\n")).bind (newRules T)
       = .ok [mkRule "network" (false, []) {} [.s [], .s [], .s [], .s (S "inet"), .s [], .s []]] := by decide +kernel
+
+/-- every ptrace access of the regenerated table is a keyword-like word other than `peer` -/
+theorem ptrace_table_words :
+    (∀ a ∈ reqValues T "ptrace" "access", CapW a ∧ a ≠ S "peer") ∧ hasReq T "ptrace" "access" = true := by
+  constructor <;> decide +kernel
+
+/-- **Ptrace rules, every access list and every peer word** (symbolic).  A printed ptrace rule holds the three
+token shapes `parseRule` tells apart — plain words, a parenthesised list `(a b)`, a condition `peer=word`.
+For every qualifier, EVERY non-empty list of ptrace accesses of the table (any length, order, repetition;
+printed bare when it has one element, in parentheses otherwise) and EVERY keyword-like peer word (no blank,
+quote, bracket, `#`, `,`, `=`: `unconfined`, `foo//bar`, `/usr/bin/x`), the library's parser gives back one
+ptrace rule with the same qualifier, the access list in table order and exactly that peer. -/
+theorem C09_ptrace_all (audit deny : Bool) (accs : List Text) (p : Text) (ha : accs ≠ [])
+    (h : ∀ a ∈ accs, a ∈ reqValues T "ptrace" "access") (hp : CapW p) :
+    (parseCommaRules false (renderRule (ptraceRule audit deny accs p) (padOf []) ++ S "\n")).bind (newRules T) =
+      .ok [mkRule "ptrace" (audit, if deny then S "deny" else []) {}
+        [.l (mergeValues T "ptrace" "access" accs []), .s p]] :=
+  parse_ptrace T audit deny accs p ha ptrace_table_words.2
+    (fun a hm => ⟨(ptrace_table_words.1 a (h a hm)).1, by simpa using h a hm⟩)
+    (fun a hm => (ptrace_table_words.1 a (h a hm)).2) hp
+
+example : (parseCommaRules false (renderRule (ptraceRule true false [S "trace", S "read", S "trace"] (S "foo//bar")) (padOf []) ++ S "\n")).bind (newRules T)
+    = .ok [mkRule "ptrace" (true, []) {} [.l [S "read", S "trace"], .s (S "foo//bar")]] := by
+  rw [C09_ptrace_all true false _ _ (by simp) (by decide +kernel) (by decide)]
+  decide +kernel
+
+/-- every signal access and every signal of the regenerated tables is a keyword-like word; no access is called
+`peer` or `set` -/
+theorem signal_table_words :
+    (∀ a ∈ reqValues T "signal" "access", CapW a ∧ a ≠ S "peer" ∧ a ≠ S "set") ∧
+    (∀ s ∈ reqValues T "signal" "set", CapW s) ∧
+    hasReq T "signal" "access" = true ∧ hasReq T "signal" "set" = true := by
+  refine ⟨?_, ?_, ?_, ?_⟩ <;> decide +kernel
+
+/-- **Signal rules, the whole access-list × signal-list product with every peer word** (symbolic).  The value of
+`set=` is itself a list, pre-parsed by the recursive call of `parseRule`.  For every qualifier, EVERY non-empty
+list of signal accesses and EVERY non-empty list of signals of the tables (any length, order, repetition) and
+EVERY keyword-like peer word, the library's parser gives back one signal rule with the same qualifier, both
+lists in table order and exactly that peer. -/
+theorem C09_signal_all (audit deny : Bool) (accs set : List Text) (p : Text) (ha : accs ≠ []) (hs : set ≠ [])
+    (h : ∀ a ∈ accs, a ∈ reqValues T "signal" "access") (h' : ∀ s ∈ set, s ∈ reqValues T "signal" "set") (hp : CapW p) :
+    (parseCommaRules false (renderRule (signalRule audit deny accs set p) (padOf []) ++ S "\n")).bind (newRules T) =
+      .ok [mkRule "signal" (audit, if deny then S "deny" else []) {}
+        [.l (mergeValues T "signal" "access" accs []), .l (mergeValues T "signal" "set" set []), .s p]] :=
+  parse_signal T audit deny accs set p ha hs signal_table_words.2.2.1 signal_table_words.2.2.2
+    (fun a hm => ⟨(signal_table_words.1 a (h a hm)).1, by simpa using h a hm⟩)
+    (fun a hm => ⟨signal_table_words.2.1 a (h' a hm), by simpa using h' a hm⟩)
+    (fun a hm => (signal_table_words.1 a (h a hm)).2.1) (fun a hm => (signal_table_words.1 a (h a hm)).2.2) hp
+
+example : (parseCommaRules false (renderRule (signalRule false true [S "send", S "receive"] [S "term", S "hup", S "term"] (S "foo//bar")) (padOf []) ++ S "\n")).bind (newRules T)
+    = .ok [mkRule "signal" (false, S "deny") {} [.l (mergeValues T "signal" "access" [S "send", S "receive"] []),
+        .l (mergeValues T "signal" "set" [S "term", S "hup", S "term"] []), .s (S "foo//bar")]] :=
+  C09_signal_all false true _ _ _ (by simp) (by simp) (by decide +kernel) (by decide +kernel) (by decide)
 
 /-! ## Whole-text round trips over the complete value tables
 
